@@ -483,7 +483,7 @@ func (p *c17) RunCase(i int) *core.CaseResult {
 
 func (p *c17) Meta() core.Meta {
 	return core.Meta{
-		Rule:        "identifier cases: every string of length 1..3 (thorough 4) over {a,b,space,',[,],.,0,é} as a double-quoted identifier under PostgresEscapingDialect vs the same backtick identifier without it, in 5 clause positions, with and without IdiomaticArrays; literal cases: every string of length 1..3 (thorough 4) over {a,space,\",',`,\\,[,],ë} as a string literal (echo and WHERE operand) and as a backtick alias under the three non-trivial option combinations; array cases: every bracket expression of depth <= 2 (thorough 3) over elements {1,'x',a,'[y]','é',nested} vs the ARRAY(...) spelling, next to a backtick selector with brackets, a literal with brackets, and literals / aliases with multi-byte characters before and after the brackets; same-text cases: 6 statements that are legal with and without an option but mean something else, executed under alternating settings in one process (both orders); wrapped cases: 15 queries (paths, joins, CTE, subqueries with <-, EXISTS, UNION, missing path) on {root: doc} vs doc with Wrapped() (also for a doc that has a top-level key named root of its own), under 4 option combinations. Oracle: both executions return the same rows or both fail; literal and alias contents are compared with the expected value directly. non-trivial = the canonical execution succeeded / the string contains a special character",
+		Rule:        "identifier cases: every string of length 1..3 (thorough 4) over {a,b,space,',[,],.,0,é} as a double-quoted identifier under PostgresEscapingDialect vs the same backtick identifier without it, in 5 clause positions, with and without IdiomaticArrays; literal cases: every string of length 1..3 (thorough 4) over {a,space,\",',`,\\,[,],ë} as a string literal (echo and WHERE operand) and as a backtick alias under the three non-trivial option combinations; array cases: every bracket expression of depth <= 2 (thorough 3) over elements {1,'x',a,'[y]','é',nested} vs the ARRAY(...) spelling, next to a backtick selector with brackets, a literal with brackets, and literals / aliases with multi-byte characters before and after the brackets; same-text cases: 6 statements that are legal with and without an option but mean something else, executed under alternating settings in one process (both orders); wrapped cases: 15 queries (paths, joins, CTE, subqueries with <-, EXISTS, UNION, missing path) on {root: doc} vs doc with Wrapped() (also for a doc that has a top-level key named root of its own), under 4 option combinations. Oracle: both executions return the same rows or both fail; literal and alias contents are compared with the expected value directly. non-trivial = the canonical execution succeeded / the string contains a special character; one case comparing Wrapped() with {root: input} when the input is changed after New (7 queries x every sequence of two of 5 changes)",
 		Assumptions: []string{"double quotes inside double-quoted identifiers are outside the enumerated alphabet (the property fixes no escape for them)", "a panic on both sides is C10's matter and is not counted as an option-induced difference"},
 		Bounds:      map[string]any{"identifiers": len(p.idents), "literals": len(p.lits), "array_expressions": len(p.arrays), "wrapped_queries": len(p.queries)},
 		Exhaustive:  true,
